@@ -35,6 +35,9 @@ func (c16) Gen(r *rand.Rand, tier string, run int) *core.Case {
 	// first draws of an Add meet the identifier of the service's first object
 	// (which nobody removes in these runs)
 	c.Params["add_collides"] = []int{0, 0, 1, 2, 3}[r.IntN(5)]
+	if r.IntN(6) == 0 {
+		c.Params["svc_terminate"] = 1
+	}
 	objs := 2 + r.IntN(3)
 	c.Params["objects"] = objs
 	c.Params["conns"] = 1 + r.IntN(3)
@@ -579,6 +582,37 @@ func (c16) Run(c *core.Case, env *core.Env) {
 	}
 	wg.Wait()
 	env.S.Quiesce()
+	if c.P("svc_terminate", 0) == 1 {
+		// the whole service is terminated: every object that is still there
+		// goes with it (hook once, unreachable afterwards), and whoever
+		// removes one of them afterwards finds it gone
+		h := env.Invoke(96, "service-terminate", "")
+		zzsim.SetNode("server")
+		err := w.Svc.Terminate()
+		zzsim.SetNode("harness")
+		env.Return(h, "", err)
+		st.mu.Lock()
+		var live []*c16obj
+		for _, o := range st.objs {
+			if o.addRet != 0 && len(o.removeRets) == 0 && !o.readded {
+				if o.removeCall == 0 {
+					o.removeCall = h.Call
+				}
+				o.removeRets = append(o.removeRets, h.Ret)
+				live = append(live, o)
+			}
+		}
+		st.mu.Unlock()
+		env.Probe("services-terminated")
+		for _, o := range live {
+			h := env.Invoke(96, "remove-after-service-terminate", fmt.Sprintf("slot%d", o.slot))
+			zzsim.SetNode("server")
+			err := w.Svc.Remove(o.id)
+			zzsim.SetNode("harness")
+			env.Return(h, "", err)
+		}
+		env.S.Quiesce()
+	}
 	// afterwards: every object is called once more
 	st.mu.Lock()
 	all := append([]*c16obj(nil), st.objs...)
